@@ -36,6 +36,8 @@ package htlcswitch
 // by the same predicates (and recogniser) as the random batches.
 
 import (
+	"context"
+	"encoding/hex"
 	"errors"
 	"fmt"
 	"os"
@@ -48,7 +50,10 @@ import (
 	"unsafe"
 
 	"github.com/lightningnetwork/lnd/channeldb"
+	"github.com/lightningnetwork/lnd/invoices"
 	"github.com/lightningnetwork/lnd/kvdb"
+	"github.com/lightningnetwork/lnd/lntypes"
+	"github.com/lightningnetwork/lnd/ticker"
 )
 
 // ---- stop points ------------------------------------------------------------
@@ -205,9 +210,148 @@ func vC08WrapDB(v *vC08Net, db *channeldb.DB) {
 		Set(reflect.ValueOf(kvdb.Backend(w)))
 }
 
+// ---- an incoming peer that stays offline, forced ack ticks ------------------------
+
+// linkDown takes both ends of channel ch down and leaves them down (the peer is
+// offline); linkUp brings the channel back unless a node restart already did.
+func (v *vC08Net) linkDown(ch int) {
+	v.gate.Lock()
+	defer v.gate.Unlock()
+	n := v.n
+	if ch == 1 {
+		n.bobServer.htlcSwitch.RemoveLink(n.firstBobChannelLink.ChanID())
+		v.rec.add("x", "linkrestart", 1)
+		n.aliceServer.htlcSwitch.RemoveLink(n.aliceChannelLink.ChanID())
+	} else {
+		n.bobServer.htlcSwitch.RemoveLink(n.secondBobChannelLink.ChanID())
+		v.rec.add("x", "linkrestart", 2)
+		n.carolServer.htlcSwitch.RemoveLink(n.carolChannelLink.ChanID())
+	}
+	v.mu.Lock()
+	v.epoch[ch]++
+	v.dropping[ch] = false
+	v.mu.Unlock()
+}
+
+func (v *vC08Net) linkUp(ch int) error {
+	v.gate.Lock()
+	defer v.gate.Unlock()
+	if _, err := v.n.bobServer.htlcSwitch.GetLink(v.bobLink(ch).ChanID()); err == nil {
+		return nil
+	}
+	chans, err := v.restore(ch == 1, ch == 2)
+	if err != nil {
+		return err
+	}
+	return v.links(chans, ch == 1, ch == 2)
+}
+
+// forceAck makes the switch's AckEventTicker fire now (default period 15 s).
+func (v *vC08Net) forceAck() {
+	f, ok := v.n.bobServer.htlcSwitch.cfg.AckEventTicker.(*ticker.Force)
+	if !ok {
+		return
+	}
+	select {
+	case f.Force <- time.Now():
+	case <-time.After(50 * time.Millisecond):
+	}
+}
+
+func vC08HoldCtl(v *vC08Net, p *vC08Pay) (accepted func(), settle func()) {
+	reg := v.n.carolServer.registry
+	if p.Dir == "CA" {
+		reg = v.n.aliceServer.registry
+	}
+	var h lntypes.Hash
+	var pre lntypes.Preimage
+	hb, _ := hex.DecodeString(p.Hash)
+	copy(h[:], hb)
+	pb, _ := hex.DecodeString(p.Pre)
+	copy(pre[:], pb)
+	accepted = func() {
+		for deadline := time.Now().Add(8 * time.Second); time.Now().Before(deadline); {
+			inv, err := reg.LookupInvoice(context.Background(), h)
+			if err == nil && inv.State == invoices.ContractAccepted {
+				return
+			}
+			time.Sleep(10 * time.Millisecond)
+		}
+	}
+	settle = func() { _ = reg.SettleHodlInvoice(context.Background(), pre) }
+	return
+}
+
+// vC08DirectedPair is the directed TWO-FAULT family: one held payment in
+// direction dir ("AC" / "CA").
+//  1. the incoming peer goes offline (both ends of the incoming channel down);
+//  2. the receiver settles: the preimage reaches Bob's outgoing link, the switch
+//     closes the circuit and puts the settle into the incoming link's mailbox
+//     (nothing can be committed, the circuit stays "closing"); the settle is
+//     locked into the outgoing channel's forwarding package and re-forwarded;
+//  3. the OUTGOING link flaps (its forwarding packages are replayed: the same
+//     settle reaches the switch once more);
+//  4. the switch's ack ticker fires;
+//  5. the NODE restarts (circuit map reloaded, mailboxes gone) and the incoming
+//     peer comes back.
+//
+// The preimage must still be delivered upstream: settled both hops, forwarder
+// whole, nothing dangling.
+func vC08DirectedPair(t *testing.T, dir string, caseNo int) *vC08Case {
+	start := time.Now()
+	rg := vNewRng(81)
+	in, outc := 1, 2
+	if dir == "CA" {
+		in, outc = 2, 1
+	}
+	sp := vC08SP{Scenario: "pair_" + strings.ToLower(dir), Variant: "pair", Key: "directed"}
+	c := &vC08Case{Case: caseNo, Fault: "sp/" + sp.Scenario + "/pair/directed#0",
+		Extra: map[string]any{"sp": sp, "fired": true}}
+	v := vC08Setup(t, rg.fork(501))
+	defer func() { v.n.stop() }()
+	c.Init = vC08Ends(v.n, v.rec)
+	p := &vC08Pay{Kind: "hold_manual", Dir: dir, InChan: in, OutChan: outc, Amt: 2200000}
+	c.Pays = []*vC08Pay{p}
+	run, err := vC08Launch(v, p, rg.fork(1000))
+	if err != nil {
+		t.Fatal(err)
+	}
+	var wg sync.WaitGroup
+	wg.Add(1)
+	go func() { defer wg.Done(); run() }()
+	accepted, settle := vC08HoldCtl(v, p)
+	accepted()
+	v.silent(300 * time.Millisecond)
+	v.linkDown(in) // 1.
+	settle()       // 2.
+	v.silent(400 * time.Millisecond)
+	if err := v.flap(outc); err != nil { // 3.
+		t.Fatal(err)
+	}
+	v.silent(300 * time.Millisecond)
+	v.forceAck() // 4.
+	time.Sleep(100 * time.Millisecond)
+	v.forceAck()
+	time.Sleep(100 * time.Millisecond)
+	if err := v.restartBob(); err != nil { // 5. (brings every link up again)
+		t.Fatal(err)
+	}
+	wg.Wait()
+	c.Faults = []*vC08Fault{{Kind: "linkdown", Chan: in, Fired: "directed"},
+		{Kind: "flap", Chan: outc, Fired: "directed"}, {Kind: "restart", Fired: "directed"}}
+	v.finish(c, start, true)
+	return c
+}
+
 // ---- base scenarios --------------------------------------------------------------
 
-var vC08Scenarios = []string{"ok_ac", "ok_ca", "unknown_ac", "unknown_ca", "hold_ac", "two_ac"}
+var vC08Scenarios = []string{"ok_ac", "ok_ca", "unknown_ac", "unknown_ca", "hold_ac", "two_ac",
+	// "_off": the INCOMING peer is offline from the moment the receiver holds
+	// the HTLC until after it has settled (the response exists only in the
+	// incoming link's mailbox while the outgoing side resolves), the ack
+	// ticker of the switch is forced every 20 ms, and the off period ends
+	// with a NODE restart; thorough tier only
+	"hold_ca_off", "hold_ac_off"}
 
 func vC08ScenarioPays(name string) []*vC08Pay {
 	switch name {
@@ -219,6 +363,10 @@ func vC08ScenarioPays(name string) []*vC08Pay {
 		return []*vC08Pay{{Kind: "unknown", Dir: "AC", InChan: 1, OutChan: 2, Amt: 1200000}}
 	case "unknown_ca":
 		return []*vC08Pay{{Kind: "unknown", Dir: "CA", InChan: 2, OutChan: 1, Amt: 1300000}}
+	case "hold_ca_off":
+		return []*vC08Pay{{Kind: "hold_manual", Dir: "CA", InChan: 2, OutChan: 1, Amt: 2100000}}
+	case "hold_ac_off":
+		return []*vC08Pay{{Kind: "hold_manual", Dir: "AC", InChan: 1, OutChan: 2, Amt: 2300000}}
 	case "hold_ac":
 		return []*vC08Pay{{Kind: "hold_settle", Dir: "AC", InChan: 1, OutChan: 2, Amt: 2500000}}
 	default:
@@ -270,9 +418,64 @@ func vC08RunSP(t *testing.T, sp vC08SP, caseNo int, closing bool) (*vC08Case, []
 		wg.Add(1)
 		go func() { defer wg.Done(); run() }()
 	}
+	var offFired, offSet bool
+	if strings.HasSuffix(sp.Scenario, "_off") {
+		p := c.Pays[0]
+		accepted, settle := vC08HoldCtl(v, p)
+		accepted()
+		v.silent(200 * time.Millisecond)
+		v.linkDown(p.InChan)
+		stopAck := make(chan struct{})
+		go func() {
+			for {
+				select {
+				case <-stopAck:
+					return
+				case <-time.After(20 * time.Millisecond):
+					v.forceAck()
+				}
+			}
+		}()
+		settle()
+		v.silent(500 * time.Millisecond)
+		v.mu.Lock()
+		firedNow := v.spFired
+		v.mu.Unlock()
+		if firedNow {
+			select {
+			case <-v.spDone:
+			case <-time.After(30 * time.Second):
+			}
+		}
+		close(stopAck)
+		v.forceAck()
+		time.Sleep(60 * time.Millisecond)
+		// the second fault of the history: the NODE restarts while the
+		// response is still only in the incoming mailbox (this also brings
+		// the incoming peer back); linkUp is a no-op afterwards
+		v.mu.Lock()
+		offFired, offSet = v.spFired, true
+		v.spFired = true
+		v.mu.Unlock()
+		if offFired && !firedNow {
+			select {
+			case <-v.spDone:
+			case <-time.After(30 * time.Second):
+			}
+		}
+		if err := v.restartBob(); err != nil {
+			t.Fatal(err)
+		}
+		if err := v.linkUp(p.InChan); err != nil {
+			t.Fatal(err)
+		}
+	}
 	wg.Wait()
 	v.mu.Lock()
 	fired := v.spFired
+	if offSet {
+		fired = offFired
+	}
 	v.spFired = true // nothing fires from here on
 	hits, ntx := v.spHits, v.dbN
 	v.mu.Unlock()
@@ -317,6 +520,16 @@ func vC08StopPoints(t *testing.T, out *vWriter, root *vrng) {
 	if s := vEnvInt("VERIF_C08_SP_SCEN", -1); s >= 0 {
 		scen = scen[s : s+1]
 	}
+	if want > 0 {
+		// quick: the "_off" cross product is left to the thorough tier
+		var f []string
+		for _, sc := range scen {
+			if !strings.HasSuffix(sc, "_off") {
+				f = append(f, sc)
+			}
+		}
+		scen = f
+	}
 	for i, sc := range scen {
 		var b base
 		t.Run("sp_base_"+sc, func(t *testing.T) {
@@ -339,6 +552,16 @@ func vC08StopPoints(t *testing.T, out *vWriter, root *vrng) {
 					key = h[:j]
 					fmt.Sscanf(h[j+1:], "%d", &k)
 				}
+				if strings.HasSuffix(sc, "_off") {
+					// stop points of the OUTGOING channel, flap / node restart
+					outc := "2:"
+					if strings.HasSuffix(sc, "_ca_off") {
+						outc = "1:"
+					}
+					if !strings.HasPrefix(key, outc) || va == "restartflap" {
+						continue
+					}
+				}
 				// After a node restart the link of the OUTGOING channel comes up
 				// first in the restart-then-flap family (responses replayed
 				// for an incoming link that is not registered yet are parked
@@ -347,7 +570,7 @@ func vC08StopPoints(t *testing.T, out *vWriter, root *vrng) {
 					OutFirst: va == "restartflap" || i%2 == 0})
 			}
 		}
-		for k := 1; k <= b.ntx; k++ {
+		for k := 1; k <= b.ntx && !strings.HasSuffix(sc, "_off"); k++ {
 			all = append(all, vC08SP{Scenario: sc, Variant: "db", Key: "db", K: k, OutFirst: k%2 == 0})
 		}
 	}
